@@ -264,6 +264,7 @@ func scripted() []*handshake {
 			return a
 		}},
 	}
+	hs = append(hs, stepFailHandshakes()...)
 	for _, h := range hs {
 		h.MaxBytes, h.MaxOps = scriptedMaxBytes, scriptedMaxOps
 		h.Key, h.Chunk = h.Name, readChunk
